@@ -24,7 +24,7 @@ EXPLANATION = (
 )
 ASSUMPTIONS = [
     "orjson/json.loads are a faithful codec pair on JSON-native values (C10's codec clause)",
-    "uuid4() results are pairwise distinct (stub: per-path counter); time.time() returns a float (stub: counter)",
+    "uuid4() results are pairwise distinct (stub: per-path counter; the real_uuid shards leave the task-id source of the code under test alone, while the program re-seeds the global PRNG before every operation); time.time() returns a float (stub: counter)",
 ]
 
 
@@ -240,7 +240,7 @@ def _e1_shards(tier):
         for idtext in (0, 1):
             shards.append({"N": N if tier == "quick" else 5, "D": D, "handoff": 1, "reverse_sides": rev, "idtext": idtext})
     # re-entering the current action's context()/run(); hand-offs whose work runs after the program's blocks ended
-    for extra in ({"reenter": 1}, {"reenter": 1, "reenter_style": 1}, {"deferred": 1, "handoff": 1}, {"deferred": 1, "reverse_sides": 1}, {"empty_type": 1}, {"empty_type": 1, "open": 1}, {"names": 1}, {"explicit_logger": 1}, {"unentered": 1}, {"unentered": 1, "exc": 7, "ext": 1}, {"handoff": 1, "remote_type": 1}, {"handling": 1}):
+    for extra in ({"reenter": 1}, {"reenter": 1, "reenter_style": 1}, {"deferred": 1, "handoff": 1}, {"deferred": 1, "reverse_sides": 1}, {"empty_type": 1}, {"empty_type": 1, "open": 1}, {"names": 1}, {"explicit_logger": 1}, {"unentered": 1}, {"unentered": 1, "exc": 7, "ext": 1}, {"handoff": 1, "remote_type": 1}, {"handling": 1}, {"real_uuid": 1, "open": 5}):
         base = dict(extra, N=N if tier == "quick" else 5, D=D)
         for pre in enumerate_prefixes(body_E1, "X", {}, base, 2):
             shards.append(dict(base, prefix=pre))
